@@ -20,6 +20,7 @@ ASSUMPTIONS = ["generator writes what AMReX writes (cross-checked by refparse ro
                "the real assets in the thorough tier)", "numpy fromfile/tobytes are correct",
                "pool shim M1 executes tasks in-process in shuffled order; real pools are C12's"]
 REQUIRED_OBS = {"forms:supported_ok": 100, "forms:unsupported_raise": 5}
+OPT_SUBSET = {"quick": 1, "thorough": 2}      # the share of cases also run under python -O: the anchor code validates with assert statements
 TIMEOUT = {"quick": 300, "thorough": 1200}
 
 
